@@ -397,7 +397,7 @@ impl Check for C07 {
         ]
     }
     fn units(&self, tier: Tier) -> Vec<Unit> {
-        vec![Unit::enumerate("scalars", 16), Unit::enumerate("illformed", 8), Unit::gen("e2e", 16, tier.pick(800, 30_000))]
+        vec![Unit::enumerate("scalars", 16), Unit::enumerate("illformed", 8), Unit::gen("e2e", 16, tier.pick(6000, 60_000))]
     }
     fn required_classes(&self, _tier: Tier) -> Vec<&'static str> {
         vec!["e2e:ascii_only", "e2e:non_ascii", "e2e:detected", "e2e:mode:slice", "e2e:mode:bytewise", "e2e:utf-16le", "e2e:utf-32be+bom", "e2e:ok", "scalars:pass", "illformed:utf-16", "illformed:utf-32"]
